@@ -346,7 +346,7 @@ def gen(rng, tier):
     for n in (1, 31, 32, 33, 200, 1000, 4000):
         for op, mid, cl in (("(", "y", ")"), ("a", "y", "-"), ("a{s", "v", "}"), ("m", "y", "-"), ("(", "-", "-"), ("(a", "y", ")")):
             yield "deep %d %s %s %s" % (n, op, mid, cl)
-    for n in ((30000, 60000, 100000) if thorough else (30000,)):
+    for n in ((30000, 50000) if thorough else (30000,)):
         for op, mid, cl in (("(", "y", ")"), ("a", "y", "-"), ("(", "-", "-"), ("a{s", "v", "}")):
             yield "deep %d %s %s %s" % (n, op, mid, cl)
 
